@@ -9,6 +9,7 @@ import warnings
 from harness import vlib
 from harness.vlib import coq_str
 
+RT_THEOREMS = ["C20_model_roundtrip", "C20_model_roundtrip_single", "C20_fields_digest"]
 THEOREMS = ["C20_refs_closed", "C20_refs_closed_single", "C20_total", "C20_cyclic_diverges", "C20_cyclic_unranked",
             "C20_wf", "C20_wf_single", "C20_accumulate_refuted",
             "C20_K9_prefix", "C20_K9_dialect_defaults", "C20_K9_builder", "C20_K9_ref_names_key", "C20_K9_passed_context"]
@@ -41,6 +42,113 @@ def canon(d) -> bytes:
             out += str(len(kb)).encode() + b":" + kb + canon(v)
         return out + b"}"
     raise TypeError(f"not in the model's JSON universe: {d!r}")
+
+
+def coq_js(d) -> str:
+    """a Coq term of type SchemaGen.js"""
+    if d is None:
+        return "JNull"
+    if d is True:
+        return "(JBool true)"
+    if d is False:
+        return "(JBool false)"
+    if isinstance(d, int):
+        return f"(JInt {vlib.coq_z(d)})"
+    if isinstance(d, str):
+        return f"(JStr {coq_str(d)})"
+    if isinstance(d, (list, tuple)):
+        return "(JArr [" + "; ".join(coq_js(x) for x in d) + "])"
+    if isinstance(d, dict):
+        return "(JObj [" + "; ".join(f"({coq_str(k)}, {coq_js(v)})" for k, v in d.items()) + "])"
+    raise TypeError(f"not in the model's JSON universe: {d!r}")
+
+
+def in_js_universe(d) -> bool:
+    if d is None or isinstance(d, (bool, int, str)):
+        return True
+    if isinstance(d, (list, tuple)):
+        return all(in_js_universe(x) for x in d)
+    if isinstance(d, dict):
+        return all(isinstance(k, str) and in_js_universe(v) for k, v in d.items())
+    return False
+
+
+FORMATS = ["date-time", "date", "time", "uuid", "ipv4", "regex", "time-delta", "time-zone", "ipv6interface", "decimal", "fraction", "base64", "path"]
+TYPES = ["null", "boolean", "object", "array", "number", "string", "integer"]
+
+
+def rand_json(r, depth=2):
+    x = r.random()
+    if depth <= 0 or x < 0.6:
+        return r.choice([None, True, False, 0, 1, -7, 2**70, "", "a", "$ref", "\u00e9", "it's"])
+    if x < 0.8:
+        return [rand_json(r, depth - 1) for _ in range(r.randrange(0, 3))]
+    return {r.choice(["a", "$ref", "default", "type", "x"]) + str(i): rand_json(r, depth - 1) for i in range(r.randrange(0, 3))}
+
+
+def rand_schema_doc(r, depth=2) -> dict:
+    """a document over the keywords of the JSONSchema dataclass: typed values, falsy and null sentinels, null-valued
+    ordinary keywords, unknown keywords, arbitrary key order; sometimes an unknown type / format name (from_dict raises)"""
+    d = {}
+    pool = ["$schema", "type", "enum", "const", "format", "title", "description", "anyOf", "$ref", "$defs", "default", "deprecated",
+            "examples", "properties", "patternProperties", "additionalProperties", "propertyNames", "prefixItems", "items", "contains",
+            "multipleOf", "maximum", "exclusiveMaximum", "minimum", "exclusiveMinimum", "maxLength", "minLength", "pattern", "maxItems",
+            "minItems", "uniqueItems", "maxContains", "minContains", "maxProperties", "minProperties", "required", "x-unknown", "$id", "not"]
+    for k in r.sample(pool, r.randrange(0, 7)):
+        if r.random() < 0.08 and k not in ("const", "default"):
+            d[k] = None
+            continue
+        if k in ("$schema", "title", "description", "$ref", "pattern"):
+            d[k] = r.choice(["", "a", "#/$defs/A", "^a*$", "\u00e9 'q'"])
+        elif k == "type":
+            d[k] = "strin" if r.random() < 0.2 else r.choice(TYPES)
+        elif k == "format":
+            d[k] = "date_time" if r.random() < 0.2 else r.choice(FORMATS)
+        elif k in ("enum", "examples"):
+            d[k] = [rand_json(r, 1) for _ in range(r.randrange(0, 4))]
+        elif k in ("const", "default"):
+            d[k] = rand_json(r, 2)
+        elif k in ("deprecated", "uniqueItems"):
+            d[k] = r.choice([True, False])
+        elif k in ("propertyNames", "items", "contains"):
+            d[k] = r.choice([True, 0, "x", []]) if r.random() < 0.1 else (rand_schema_doc(r, depth - 1) if depth > 0 else {})
+        elif k == "additionalProperties":
+            d[k] = r.choice([True, False]) if (depth <= 0 or r.random() < 0.5) else rand_schema_doc(r, depth - 1)
+        elif k in ("anyOf", "prefixItems"):
+            d[k] = [rand_schema_doc(r, depth - 1) if depth > 0 else {} for _ in range(r.randrange(0, 3))]
+        elif k in ("$defs", "properties", "patternProperties"):
+            d[k] = {r.choice(["a", "$ref", "default", "it's"]) + str(i): (rand_schema_doc(r, depth - 1) if depth > 0 else {}) for i in range(r.randrange(0, 3))}
+        elif k == "required":
+            d[k] = [r.choice(["a", "b", "$ref", ""]) for _ in range(r.randrange(0, 3))]
+        elif k in ("x-unknown", "$id", "not"):
+            d[k] = rand_json(r, 1)
+        else:
+            d[k] = r.choice([0, 1, 3, -2, 2**40])
+    items = list(d.items())
+    r.shuffle(items)
+    return dict(items)
+
+
+def rt_cases(ctx: vlib.Ctx, real_docs: list, n_synth: int):
+    """(document, JSONSchema.from_dict(d).to_dict() as canonical text | "ERR")"""
+    from mashumaro.jsonschema.models import JSONSchema
+    r = ctx.rng
+    docs = [d for d in real_docs if in_js_universe(d)]
+    docs += [rand_schema_doc(r, r.choice([0, 1, 2])) for _ in range(n_synth)]
+    docs += [{"const": 0}, {"const": ""}, {"const": False}, {"const": None}, {"default": None, "const": None}, {"default": [], "enum": []},
+             {"properties": {"$ref": {"const": 0}}, "type": "object"}, {}, {"$defs": {}}, {"anyOf": []}, {"required": []}]
+    cases, descr = [], []
+    for d in docs:
+        try:
+            back = JSONSchema.from_dict(d).to_dict()
+            exp = canon(back) if in_js_universe(back) else None
+        except Exception:
+            exp = b"ERR"
+        if exp is None:
+            continue
+        cases.append(f"({coq_js(d)}, {coq_str(exp)})")
+        descr.append({"doc": d, "expected": exp.decode("utf-8", "replace")})
+    return cases, descr
 
 
 def kv_opt_bool(b):
@@ -157,16 +265,64 @@ def m_scalar(r):
         MT("bool", "TBool", [("True", "JBool true"), ("False", "JBool false")], True),
         MT("str", "TStr", [('"s"', 'JStr "s"'), ('""', 'JStr ""'), ('"$ref"', 'JStr "$ref"'), ('"\\u00e9"', "JStr " + coq_str("\u00e9"))], True),
         MT("Any", "TAny", [("7", "JInt 7"), ('"a"', 'JStr "a"')]),
-    ])
+    ] + M_LEAVES)
+
+
+UTC_PAT = r"^UTC([+-][0-2][0-9]:[0-5][0-9])?$"
+M_LEAVES = [
+    MT("datetime.datetime", 'TLeaf "string" (Some "date-time") None', [("datetime.datetime(2020, 1, 2, 3, 4, 5)", 'JStr "2020-01-02T03:04:05"')], True),
+    MT("datetime.date", 'TLeaf "string" (Some "date") None', [("datetime.date(2020, 2, 29)", 'JStr "2020-02-29"')], True),
+    MT("datetime.time", 'TLeaf "string" (Some "time") None', None, True),
+    MT("datetime.timedelta", 'TLeaf "number" (Some "time-delta") None', None, True),
+    MT("datetime.timezone", f'TLeaf "string" None (Some {coq_str(UTC_PAT)})', [("datetime.timezone.utc", 'JStr "UTC"')], True),
+    MT("zoneinfo.ZoneInfo", 'TLeaf "string" (Some "time-zone") None', None, True),
+    MT("uuid.UUID", 'TLeaf "string" (Some "uuid") None', [("uuid.UUID(int=0)", 'JStr "00000000-0000-0000-0000-000000000000"')], True),
+    MT("decimal.Decimal", 'TLeaf "string" (Some "decimal") None', [("decimal.Decimal('1.10')", 'JStr "1.10"')], True),
+    MT("fractions.Fraction", 'TLeaf "string" (Some "fraction") None', None, True),
+    MT("bytes", 'TLeaf "string" (Some "base64") None', None, True),
+    MT("ipaddress.IPv4Address", 'TLeaf "string" (Some "ipv4") None', [("ipaddress.IPv4Address('127.0.0.1')", 'JStr "127.0.0.1"')], True),
+    MT("ipaddress.IPv6Network", 'TLeaf "string" (Some "ipv6network") None', None, True),
+    MT("pathlib.PurePosixPath", 'TLeaf "string" (Some "path") None', [("pathlib.PurePosixPath('/a')", 'JStr "/a"')], True),
+    MT("ME1", 'TEnum false [JStr "a"; JInt 2]', [("ME1.A", 'JStr "a"'), ("ME1.B", "JInt 2")], True),
+    MT("ME0", 'TEnum false []', None, True),
+    MT("ME2", 'TEnum false [JInt 1; JInt 2]', [("ME2.X", "JInt 1")], True),
+    MT('Literal[1, "a", True, None]', 'TEnum true [JInt 1; JStr "a"; JBool true; JNull]', [("None", "JNull"), ("True", "JBool true")], True),
+    MT("Literal[0]", "TEnum true [JInt 0]", [("0", "JInt 0")], True),
+    MT("Literal[None]", "TEnum true [JNull]", [("None", "JNull")], True),
+    MT('Literal["", False]', 'TEnum true [JStr ""; JBool false]', [('""', 'JStr ""')], True),
+    MT("MT1", 'TTyped ["b"; "a"] [TInt; TWrap TStr] [true; false]', None, False),
+    MT("MT0", 'TTyped [] [] []', None, False),
+    MT("MT2", 'TTyped ["x"; "y"; "a"] [TWrap (TLeaf "string" (Some "date") None); TList TInt; TWrap (TEnum false [JStr "a"; JInt 2])] [true; false; true]', None, False),
+]
 
 
 M_PRELUDE = [
-    "import collections",
+    "import collections, datetime, decimal, enum, fractions, ipaddress, pathlib, uuid, zoneinfo",
+    "from typing_extensions import TypedDict, Required, NotRequired, Annotated",
+    "from mashumaro.types import Alias",
+    "from mashumaro import pass_through",
+    "from mashumaro.types import SerializationStrategy",
+    "from mashumaro.dialect import Dialect",
+    "class Pt:\n    def __init__(self, x=0):\n        self.x = x",
+    "def ser_str(v) -> str:\n    return str(v)",
+    "def ser_int(v) -> int:\n    return 0",
+    "def ser_bool(v) -> bool:\n    return True",
+    "def ser_float(v) -> float:\n    return 0.5",
+    "def ser_date(v) -> datetime.date:\n    return datetime.date.min",
+    "def ser_any(v):\n    return v",
+    "class StratS(SerializationStrategy):\n    def serialize(self, v) -> str:\n        return str(v)\n    def deserialize(self, v):\n        return v",
+    "class ME1(enum.Enum):\n    A = 'a'\n    B = 2",
+    "class ME0(enum.Enum):\n    pass",
+    "class ME2(enum.IntEnum):\n    X = 1\n    Y = 2",
+    "class MT1(TypedDict):\n    b: int\n    a: NotRequired[str]",
+    "class MT0(TypedDict):\n    pass",
+    "class MT2(TypedDict, total=False):\n    x: Required[datetime.date]\n    y: List[int]\n    a: Required[ME1]",
     "class N0(NamedTuple):\n    pass",
     "class N1(NamedTuple):\n    a: int\n    b: str = 'x'",
     "class N2(NamedTuple):\n    p: Optional[int] = None\n    q: Any = 7",
     "N3 = collections.namedtuple('N3', [])",
     "N4 = collections.namedtuple('N4', ['u', 'v'], defaults=[1])",
+    "class N5(NamedTuple):\n    s: 'Optional[int]' = None\n    t: 'int' = 3\n    w: 'List[N0]' = None",
     "WInt = NewType('WInt', int)",
     "WLst = NewType('WLst', List[int])",
     "WAny = NewType('WAny', Any)",
@@ -181,13 +337,15 @@ M_NAMED = {
     "N2": ('["p"; "q"]', '[TUnion [TInt; TNone]; TAny]', '[Some JNull; Some (JInt 7)]'),
     "N3": ('[]', '[]', '[]'),
     "N4": ('["u"; "v"]', '[TAny; TAny]', '[None; Some (JInt 1)]'),
+    "N5": ('["s"; "t"; "w"]', '[TUnion [TInt; TNone]; TInt; TList (TNamed {asd} [] [] [])]', '[Some JNull; Some (JInt 3); Some JNull]'),
 }
 
 
 def m_named(r, asd) -> MT:
-    n = r.choice(["N0", "N0", "N1", "N2", "N3", "N4"])
+    n = r.choice(["N0", "N0", "N1", "N2", "N3", "N4", "N5", "N5"])
     names, ts, ds = M_NAMED[n]
-    return MT(n, f"TNamed {'true' if asd else 'false'} {names} {ts} {ds}")
+    b = "true" if asd else "false"
+    return MT(n, f"TNamed {b} {names} {ts.replace('{asd}', b)} {ds}")
 
 
 def m_type(r, depth, avail, allow_any=True, asd=False) -> MT:
@@ -244,6 +402,57 @@ def m_type(r, depth, avail, allow_any=True, asd=False) -> MT:
               sum((p.classes for p in parts), ()))
 
 
+# replacement types of overrides: python spelling of the serialize callable, Coq ov term, key of the replacement type
+OV_RET = [("ser_str", "ORet (Some TStr)", "str"), ("ser_int", "ORet (Some TInt)", "int"), ("ser_bool", "ORet (Some TBool)", "bool"),
+          ("ser_float", "ORet (Some TFloat)", "float"), ("ser_date", 'ORet (Some (TLeaf "string" (Some "date") None))', None)]
+PYKEY = {"int": "int", "float": "float", "bool": "bool", "Pt": "Pt"}
+COQKEY = {"int": "TInt", "float": "TFloat", "bool": "TBool", "Pt": 'TOpaque "Pt"'}
+
+
+def keys_of(coq_term: str) -> set:
+    ks = {k for k, c in COQKEY.items() if c in coq_term} | ({"str"} if "TStr" in coq_term else set())
+    if "TEnum true" in coq_term:      # the serializer applies a strategy to a Literal member by the member's own type
+        ks |= ({"int"} if "JInt" in coq_term else set()) | ({"bool"} if "JBool" in coq_term else set())
+    return ks
+
+
+def m_tables(r):
+    """Config.dialect / Config.serialization_strategy of one class: (python lines for the dialect class body, python dict text for
+    Config, Coq dial table, Coq conf table, overridden keys, keys with a serializing override).  "str" is never overridden (it is
+    the implicit key type of Dict[str, .]); a replacement type never carries an overridden key (no chains: domain of the clause)."""
+    if r.random() > 0.4:
+        return None
+    K = r.sample(["int", "float", "bool", "Pt"], r.randrange(1, 4))
+    dial, conf = {}, {}
+    serializing = set()
+    for k in K:
+        for tab in r.sample([dial, conf], r.randrange(1, 3)):
+            x = r.random()
+            cands = [o for o in OV_RET if o[2] not in K]
+            if k == "Pt" or x < 0.55:
+                fn, coq, _ = r.choice(cands)
+                form = r.choice(["dict", "dict", "cls"]) if fn == "ser_str" else "dict"
+                tab[k] = ("StratS()" if form == "cls" else '{"serialize": %s, "deserialize": ser_any}' % fn, coq)
+            elif x < 0.7:
+                tab[k] = ("pass_through", "OPass")
+            elif x < 0.85:
+                tab[k] = ('{"deserialize": ser_any}', "ODeser")
+            else:
+                tab[k] = ('{"serialize": ser_any}', "ORet None")
+    # the winner per key: dialect first, then Config; a table entry without "serialize" is skipped
+    for k in K:
+        for tab in (dial, conf):
+            if k in tab and tab[k][1] != "ODeser":
+                if tab[k][1] != "OPass":
+                    serializing.add(k)
+                break
+    return dial, conf, set(K), serializing
+
+
+def ob(b):
+    return "None" if b is None else f"(Some {'true' if b else 'false'})"
+
+
 def m_family(r):
     n = r.randrange(1, 5)
     names = [f"M{i}" for i in range(n)]
@@ -252,6 +461,7 @@ def m_family(r):
              "from mashumaro.config import BaseConfig"] + M_PRELUDE
     coq_classes = []
     refs = {}
+    tainted = set()
     for i, nm in enumerate(names):
         avail = names[:i]
         nf = r.randrange(0, 5)
@@ -259,6 +469,10 @@ def m_family(r):
         seen_default = False
         refs[nm] = set()
         used_alias = set()
+        cfg_aliases = {}
+        tabs = m_tables(r)
+        over = tabs[2] if tabs else set()
+        pt_ok = bool(tabs) and "Pt" in tabs[3]
         ntd = r.random() < 0.3       # Config.namedtuple_as_dict of the owner decides the form of every NamedTuple below it
         for j in range(nf):
             fname = r.choice(["a", "b", "x", "items", "type", "ref"]) + str(j)
@@ -268,29 +482,81 @@ def m_family(r):
                               MT(f'List["{target}"]', f'TList (TClass "{target}")', None, False, (target,))])
             else:
                 t = m_type(r, r.choice([0, 1, 1, 2]), avail, asd=ntd)
+                if pt_ok and r.random() < 0.3:
+                    py, cq = r.choice([("Pt", 'TOpaque "Pt"'), ("List[Pt]", 'TList (TOpaque "Pt")'), ("Optional[Pt]", 'TUnion [TOpaque "Pt"; TNone]'),
+                                       ("Dict[str, Pt]", 'TDict (TOpaque "Pt")'), ("Tuple[Pt, int]", 'TTuple [TOpaque "Pt"; TInt]')])
+                    t = MT(py, cq)
+                # a NamedTuple with string annotations under a rendered default is a known finding: such a field gets no default
+                # (also transitively: a class that contains one cannot sit under a rendered default either)
+                def bad(tt):
+                    return "N5" in tt.py or any(c in tainted for c in tt.classes)
+                for _ in range(20):
+                    if not bad(t) or not seen_default:
+                        break
+                    t = m_type(r, r.choice([0, 1, 1, 2]), avail, asd=ntd)
+                if bad(t) and seen_default:
+                    t = m_scalar(r)
+                if bad(t):
+                    tainted.add(nm)
+            no_default = "N5" in t.py or any(c in tainted for c in t.classes)
             refs[nm].update(t.classes)
+            is_final = r.random() < 0.15
+            if is_final:
+                t = MT(f"Final[{t.py}]", t.coq, t.default, False, t.classes)
+            # alias sources: field metadata, Annotated Alias, Config.aliases (resolved in that order by the model), empty alias
+            meta_alias = ann_alias = cfg_alias = None
+            final = t.py.startswith("Final[")
+            x = r.random()
+            if x < 0.2:
+                meta_alias = r.choice(["$ref", "$defs", "al" + str(j), "it's", "\u00e9" + str(j), "default", ""])
+            if r.random() < 0.15 and not final:
+                ann_alias = r.choice(["an" + str(j), "$schema", "type"])
             if r.random() < 0.15:
-                t = MT(f"Final[{t.py}]", f"TWrap ({t.coq})", t.default, False, t.classes)
-            alias = None
-            if r.random() < 0.25:
-                alias = r.choice(["$ref", "$defs", "al" + str(j), "it's", "\u00e9" + str(j), "default"])
-                if alias in used_alias:
-                    alias = "al" + str(j)
-                used_alias.add(alias)
+                cfg_alias = r.choice(["cf" + str(j), "title", ""])
+            eff = meta_alias if meta_alias is not None else (ann_alias if ann_alias is not None else (cfg_alias if cfg_alias is not None else fname))
+            eff = eff or fname
+            if eff in used_alias:
+                meta_alias = ann_alias = cfg_alias = None
+                eff = fname
+            descr = r.choice([None, None, None, "d\u00e9scr 'q'", ""])
+            # field-level override: at most one of "serialize" / "serialization_strategy"; its replacement type carries no overridden key
+            f_ser = f_strat = None
+            if r.random() < 0.18 and not (cyclic and j == 0 and i == n - 1):
+                cands = [o for o in OV_RET if o[2] not in over]
+                if r.random() < 0.5:
+                    f_ser = r.choice([("pass_through", "OPass"), ("str", "OBasic TStr"), ("bool", "OBasic TBool"), ("ser_any", "ORet None")]
+                                     + [(fn, coq) for fn, coq, _ in cands])
+                    if f_ser[0] in ("str",) and "str" in over:
+                        f_ser = ("pass_through", "OPass")
+                else:
+                    f_strat = r.choice([("pass_through", "OPass"), ('{"deserialize": ser_any}', "ODeser")]
+                                       + [('{"serialize": %s}' % fn, coq) for fn, coq, _ in cands])
+            passes = (f_ser or f_strat or ("", ""))[1] in ("OPass", "ODeser")
+            if 'TOpaque "Pt"' in t.coq and (f_ser or f_strat) and passes and (f_ser or f_strat)[1] == "OPass":
+                f_ser = f_strat = None        # pass_through over an uncovered third-party class: NotImplementedError (not generated)
+            overridden_here = bool(f_ser or f_strat) or bool(keys_of(t.coq) & over)
             kind = r.random()
             pyd = None
             jd = None
             has_default = False
-            if kind < 0.35 or seen_default:
+            if (kind < 0.35 and not no_default) or seen_default:
                 has_default = True
                 x = r.random()
-                if t.default and x < 0.6:
+                if overridden_here:
+                    pyd, jd = None, None      # a default rendered through an override is not predicted by the generator: factory only
+                elif t.default and x < 0.6:
                     pyd, jd = r.choice(t.default)
                 elif x < 0.8:
                     pyd, jd = "None", "JNull"
                 else:
                     pyd, jd = None, None      # default_factory: has default, nothing rendered
             seen_default = seen_default or has_default
+            init = not (has_default and r.random() < 0.12)
+            if init:
+                used_alias.add(eff)
+            if cfg_alias is not None:
+                cfg_aliases[fname] = cfg_alias
+            tpy = t.py if ann_alias is None else f"Annotated[{t.py}, Alias({ann_alias!r})]"
             parts = []
             if has_default:
                 if pyd is None:
@@ -298,18 +564,56 @@ def m_family(r):
                     parts.append(f"default_factory={fac}")
                 else:
                     parts.append(f"default={pyd}")
-            if alias is not None:
-                parts.append("metadata=field_options(alias=" + repr(alias) + ")")
+            if not init:
+                parts.append("init=False")
+            md = {}
+            if meta_alias is not None:
+                md["alias"] = meta_alias
+            if descr is not None:
+                md["description"] = descr
+            mdsrc = [f"{k!r}: {v!r}" for k, v in md.items()]
+            if f_ser:
+                mdsrc.append(f"'serialize': {f_ser[0]}")
+            if f_strat:
+                mdsrc.append(f"'serialization_strategy': {f_strat[0]}")
+            if mdsrc:
+                parts.append("metadata={" + ", ".join(mdsrc) + "}")
             if parts:
-                body.append(f"    {fname}: {t.py} = field({', '.join(parts)})")
+                body.append(f"    {fname}: {tpy} = field({', '.join(parts)})")
             else:
-                body.append(f"    {fname}: {t.py}")
-            key = alias if alias is not None else fname
-            cflds.append(f"mkfld {coq_str(key)} ({t.coq}) {'false' if has_default else 'true'} "
-                         + (f"(Some ({jd}))" if jd is not None else "None"))
-        cfg = [f"        {o} = True" for o in ("omit_none", "omit_default", "serialize_by_alias") if r.random() < 0.3]
+                body.append(f"    {fname}: {tpy}")
+            oq = lambda v: "None" if v is None else f"(Some {coq_str(v)})"
+            rdef = "RNone" if not has_default else (f"(RDefault ({jd}))" if jd is not None else "RFactory")
+            cflds.append(f"mkrfld {coq_str(fname)} {oq(meta_alias)} {oq(ann_alias)} ({t.coq}) {'true' if is_final else 'false'} {'true' if init else 'false'} {rdef} {oq(descr)} "
+                         + (f"(Some ({f_ser[1]}))" if f_ser else "None") + " " + (f"(Some ({f_strat[1]}))" if f_strat else "None"))
+        cfg = [f"        {o} = True" for o in ("omit_default", "serialize_by_alias") if r.random() < 0.3]
+        cfg_omit = r.choice([None, None, True, True, False])
+        dial_omit = r.choice([None, None, None, True, False])
+        if cfg_omit is not None:
+            cfg.append(f"        omit_none = {cfg_omit}")
         if ntd:
             cfg.append("        namedtuple_as_dict = True")
+        if cfg_aliases:
+            cfg.append("        aliases = " + repr(cfg_aliases))
+        dial_coq = conf_coq = "[]"
+        if not tabs:
+            if dial_omit is not None:
+                lines.append(f"class D{nm}(Dialect):\n    omit_none = {dial_omit}")
+                cfg.append(f"        dialect = D{nm}")
+        if tabs:
+            dial, conf = tabs[0], tabs[1]
+            if dial:
+                lines.append(f"class D{nm}(Dialect):")
+                if dial_omit is not None:
+                    lines.append(f"    omit_none = {dial_omit}")
+                lines.append("    serialization_strategy = {" + ", ".join(f"{PYKEY[k]}: {v[0]}" for k, v in dial.items()) + "}")
+                cfg.append(f"        dialect = D{nm}")
+                dial_coq = "[" + "; ".join(f'("{k}", {v[1]})' for k, v in dial.items()) + "]"
+            else:
+                dial_omit = None
+            if conf:
+                cfg.append("        serialization_strategy = {" + ", ".join(f"{PYKEY[k]}: {v[0]}" for k, v in conf.items()) + "}")
+                conf_coq = "[" + "; ".join(f'("{k}", {v[1]})' for k, v in conf.items()) + "]"
         if cfg:
             body.append("    class Config(BaseConfig):")
             body.extend(cfg)
@@ -318,7 +622,8 @@ def m_family(r):
         lines.append("@dataclass")
         lines.append(f"class {nm}:")
         lines.extend(body)
-        coq_classes.append(f'("{nm}", [' + "; ".join(cflds) + "])")
+        coq_classes.append(f'("{nm}", mkrcls [' + "; ".join(f"({coq_str(k)}, {coq_str(v)})" for k, v in cfg_aliases.items()) + "] " + ob(dial_omit) + " " + ob(cfg_omit) + " " + dial_coq + " " + conf_coq + " ["
+                           + "; ".join(cflds) + "])")
 
     def reach_cyclic(root_classes):
         seen, stack = set(), list(root_classes)
@@ -347,6 +652,7 @@ def m_cases(ctx: vlib.Ctx, n: int):
     from mashumaro.jsonschema.models import Context
     r = ctx.rng
     cases, descr = [], []
+    real_docs = ctx.coverage.setdefault("_real_docs", [])
     tries = 0
     while len(cases) < n and tries < 4 * n:
         tries += 1
@@ -387,12 +693,15 @@ def m_cases(ctx: vlib.Ctx, n: int):
                 if builder:
                     b = JSONSchemaBuilder(**kw)
                     for pt in pytypes:
-                        exp_docs.append(canon(b.build(pt).to_dict()))
+                        real_docs.append(b.build(pt).to_dict())
+                        exp_docs.append(canon(real_docs[-1]))
                     exp_defs = [(k, canon(v.to_dict())) for k, v in b.context.definitions.items()]
+                    real_docs.extend(v.to_dict() for v in b.context.definitions.values())
                 else:
                     c = Context() if pctx is None else Context(dialect=getattr(jd, pctx[0]), all_refs=pctx[1], ref_prefix=pctx[2])
                     doc = build_json_schema(pytypes[0], context=c, with_definitions=wd, with_dialect_uri=wu, **kw).to_dict()
                     exp_docs = [canon(doc)]
+                    real_docs.append(doc)
                     exp_defs = [(k, canon(v.to_dict())) for k, v in c.definitions.items()]
         except RecursionError:
             exp_rec = True
@@ -418,7 +727,17 @@ def m_cases(ctx: vlib.Ctx, n: int):
 
 
 def coq_part(ctx: vlib.Ctx):
-    ctx.theorems("props/C20_schema.vo", THEOREMS, kernels=["K9"])
+    br = ctx.theorems("props/C20_schema.vo", THEOREMS + RT_THEOREMS + ["C20_override_noop", "C20_override_covered"], kernels=["K9"])
+    if br.ok and not ctx.quick():
+        rc, out, _ = vlib.run(["timeout", "900", "coqchk", "-silent", "-o"] + vlib.COQ_FLAGS[:9] + ["VerifProps.C20_schema"],
+                              cwd=vlib.COQ, timeout=930)
+        tail = out[out.find("CONTEXT SUMMARY"):] if "CONTEXT SUMMARY" in out else out[-800:]
+        axioms = tail[tail.find("* Axioms:"):].split("*")[1].strip() if "* Axioms:" in tail else "?"
+        ok = rc == 0 and axioms.replace("Axioms:", "").strip() == "<none>"
+        ctx.obligation("coqchk -o VerifProps.C20_schema (no axioms)", ok, tail[-600:])
+        ctx.trusted.append("coqchk -o on VerifProps.C20_schema: " + " ".join(axioms.split()))
+        if not ok:
+            ctx.not_shown("coqchk VerifProps.C20_schema", out[-1200:])
     ctx.trusted.append("tools/kernels/k9_builder_ctx.py (K9 translator plugin: slices of build_json_schema / JSONSchemaBuilder.__init__ / "
                        "on_dataclass, structure-checked) and coq/theories/PyK_schema.v (str.rstrip('/'), f-string concatenation)")
     ctx.trusted.append("SchemaGen model grammar (scalars, List/Set/Dict[str,.]/Tuple/Union/Optional/dataclass with aliases and rendered "
@@ -456,6 +775,30 @@ def coq_part(ctx: vlib.Ctx):
     ctx.count(n=len(cases))
     for fn in os.listdir(vlib.CASES):
         if fn.startswith((f"c20_k9_{ctx.seed}_{os.getpid()}", f"c20_model_{ctx.seed}_{os.getpid()}", f".c20_k9_{ctx.seed}_{os.getpid()}", f".c20_model_{ctx.seed}_{os.getpid()}")):
+            try:
+                os.remove(os.path.join(vlib.CASES, fn))
+            except OSError:
+                pass
+    # (M) round trip model vs JSONSchema.from_dict(d).to_dict()
+    real_docs = ctx.coverage.pop("_real_docs", [])
+    rcases, rdescr = rt_cases(ctx, real_docs[: ctx.budget(300, 2000)], ctx.budget(400, 3000))
+    rname = f"c20_rt_{ctx.seed}_{os.getpid()}"
+    rbad, rlog = vlib.coq_bad_idx(rname, "PyK_schema SchemaGen K9Proofs SchemaRoundtrip SchemaCorr", "From VerifGen Require Import K9.", "", rcases,
+                                  "rt_ok", "js * string", shard=250, needs=["theories/SchemaCorr.vo"])
+    if rbad is None:
+        ctx.correspondence("roundtrip-model-vs-JSONSchema", len(rcases), -1, rlog)
+        ctx.not_shown("correspondence roundtrip-model-vs-JSONSchema", rlog)
+    else:
+        ctx.correspondence("roundtrip-model-vs-JSONSchema", len(rcases), len(rbad), str([rdescr[i] for i in rbad[:4]])[:2500])
+        if rbad:
+            ctx.not_shown("correspondence roundtrip-model-vs-JSONSchema", str([rdescr[i] for i in rbad[:4]])[:2500])
+        out, _ = vlib.coq_bad_idx(rname + "o", "PyK_schema SchemaGen K9Proofs SchemaRoundtrip SchemaCorr", "From VerifGen Require Import K9.", "", rcases,
+                                  "rt_out", "js * string", shard=250, needs=["theories/SchemaCorr.vo"])
+        ctx.notes.append(f"round trip correspondence: {len(rcases)} documents ({min(len(real_docs), ctx.budget(300, 2000))} emitted by the implementation), "
+                         f"{len(out or [])} outside the modelled value domain (no claim), {sum(1 for d in rdescr if d['expected'] == 'ERR')} with from_dict raising")
+    ctx.count(n=len(rcases))
+    for fn in os.listdir(vlib.CASES):
+        if fn.startswith((rname, "." + rname)):
             try:
                 os.remove(os.path.join(vlib.CASES, fn))
             except OSError:
